@@ -481,7 +481,7 @@ def _consumption(ctx, P, exc):
                     ctx.ob('C04.7', r[0], fn.name, 'failure of %s()' % name, ev.where(), r[1], r[2])
 
 
-def _freshness(ctx, P, exc, rule='C04.8'):
+def _freshness(ctx, P, exc, rule='C04.8', only=None, minimum=8):
     from ..guard import zero_edges_of_call
     from ..graph import ret_class
     BASE = {'jls_core_rd_chunk', 'reconstruct_omitted_chunk'}
@@ -585,6 +585,8 @@ def _freshness(ctx, P, exc, rule='C04.8'):
             continue
         if not uses(fn) and r is None:
             continue
+        if only is not None and not only(fn.name):
+            continue
         n += 1
         k = '%s:buffer-freshness' % fn.name
         if r is not None and k in exc:
@@ -594,7 +596,7 @@ def _freshness(ctx, P, exc, rule='C04.8'):
                'every use follows a successful checked read / reconstruction on the same path' if r is None else
                'bytes of the read buffer are used at %s without a successful checked read before it on that path (a cached or failed read would be returned as valid)' % r[0].where(),
                r[1].render() if r else None)
-    ctx.floor('reader functions using the read buffer', n, 8)
+    ctx.floor('reader functions using the read buffer', n, minimum)
 
 
 def _cache_validity(ctx, P):
